@@ -30,6 +30,10 @@ CHECKS = {
   text="Solver-decided, bounded: for all pairs of values within the shape bounds (independent shapes and all single-field variants, every leaf symbolic) the real Equal/AssertEqual functions agree with byte equality of the real encodings, and the real sim backend's Sign/Verify (over an ideal hash and signature scheme) accept exactly (same signer, equal state). Not a proof: larger dimensions and longer amounts are outside.",
   note="Trusted: go/ssa lowering, the interpreter (validated per run against native execution on random vectors), z3; idealised SHA-256/ECDSA; representation assumptions listed in the evidence.",
   ref="DESIGN.md §3 C15"),
+ "C16": dict(
+  text="Solver-decided, bounded: each primitive read site of the native codec returns the same value for every partition of its bytes into read chunks (all 2^(n-1) partitions, symbolic content) and never reads past its frame; two consecutive envelopes decode identically through the perunio and the protobuf envelope serializers under a bounded family of chunkings (uniform 1..8, every single cut, every double cut, all partitions of the first protobuf frame). The protobuf single-Read defect (F7) found this way was repaired.",
+  note="Trusted: go/ssa lowering, interpreter (translator-validated for the native parts), z3; proto.Marshal/Unmarshal modelled by contract.",
+  ref="DESIGN.md §3 C16"),
  "C17": dict(
   text="Solver-decided, bounded: with an ideal (collision-free) SHA-256 the real NewParams/CalcID give equal IDs for two parameter sets exactly when all ID-relevant fields are equal, for every single-field variant and for independent pairs within the shape bounds; Clone and Encode/Decode preserve ID and fields; NewParams refuses exactly the documented invalid parameters at the exact boundaries; machine-created states carry params.ID().",
   note="Trusted: go/ssa lowering, the interpreter (translator-validated per run), z3; hash idealisation (equal digest iff equal byte stream fed to the hasher by the real CalcID).",
